@@ -80,7 +80,7 @@ def _reference(i: int, cfg, data: dict):
     pre=["-1 <= x <= 3", "0 <= n <= 3", "len(s) <= 1", "in_alpha(s, 'aB ')", "len(a) <= 2", "all(0 <= k <= 2 for k in a)", "0 <= cfg < 6"],
     timeout=200,
     timeout_thorough=400,
-    shard={"i": program_ids()},
+    shard={"i": program_ids(), "cfg": list(range(6))},
     shard_thorough={"i": list(range(N_THOROUGH))},
     path_timeout=30,
     covers="render(program, data) equals the reference interpreter's output (or both fail) for every data assignment and every configuration: literal text modulo whitespace control, output stringification, if/elsif/else, unless, case/when, for with limit/offset/continue/reversed/else/break/continue and forloop.*, assign/capture scoping, counters, cycles, echo, liquid, raw, comments, with, ranges, ternaries, and/or/not/comparison operators, empty/blank/nil, 12 filters",
@@ -93,10 +93,13 @@ def d_program(i: int, x: int, n: int, b: bool, s: str, a: List[int], cfg: int) -
     return _engine(i, c, data) == _reference(i, c, dict(data))
 
 
-@cond(pre=["-1 <= x <= 3"], twin=True, timeout=60, covers="reachability twin: program outputs depend on the data")
+_TWIN_T = ENVS[("+", True)].from_string("<{{ x }}>")
+
+
+@cond(pre=["-1 <= x <= 3"], twin=True, timeout=60, covers="reachability twin: engine and reference outputs depend on the data (a fixed program, independent of VERIF_SEED)")
 def twin_program(x: int) -> bool:
-    i = program_ids()[0]
-    return all(_engine(j, CONFIGS[0], {"x": x, "n": 1, "b": True, "s": "a", "a": [1]}) == _engine(j, CONFIGS[0], {"x": 0, "n": 1, "b": True, "s": "a", "a": [1]}) for j in program_ids()[:6])
+    prog = [("text", "<"), ("out", ("var", "x", []), None), ("text", ">")]
+    return _TWIN_T.render(x=x) == R.render(prog, {"x": 0})
 
 
 # ---- value semantics -------------------------------------------------------------------------
